@@ -7,7 +7,7 @@ from common import *
 
 
 def run_harness(cmd, env=None, timeout=3600):
-    p = subprocess.run(cmd, stdout=subprocess.PIPE, stderr=subprocess.PIPE, text=True, env=env, timeout=timeout)
+    p = subprocess.run(cmd, stdout=subprocess.PIPE, stderr=subprocess.PIPE, text=True, errors="replace", env=env, timeout=timeout)
     recs, summary = [], None
     for line in p.stdout.splitlines():
         if not line.startswith("{"):
